@@ -33,6 +33,10 @@ Inductive case :=
 | CaseBatch (i : cinit) (ob0 : cobs) (steps : list cstep) (final : cobs) (remaining : Z)
     (* the same datagrams queued together and worked off by one handlePackets call: final state and
        number of datagrams left in the queue (per-step outcomes/states of [steps] are not compared) *)
+| CaseTrace (i : cinit) (steps : list cstep) (ver : Z) (first retry verneg : bool) (hs orig : string) (rscid : option string)
+    (* one client connection of a simulated handshake (unit hstrace): the pre-authentication events it logged, turned
+       into ops, with the outcome of each, and the decision state the connection ended in (the [cobs] of the steps
+       are not used: intermediate states are not observable in a running connection) *)
 | CaseTimer (creation lastRcv firstAE hsIdle kaPeriod : Z) (kaSent : bool) (kaInterval closeAt : Z) (kind : tout).
 
 Definition to_pkt (p : cpkt) : pkt :=
@@ -125,6 +129,7 @@ Definition model_obs (c : case) : obs :=
   match c with
   | CaseSeq i _ steps => ObsSeq (model_steps (to_init i) steps)
   | CaseBatch i _ steps _ _ => ObsSeq (model_steps (to_init i) steps)
+  | CaseTrace i steps _ _ _ _ _ _ _ => ObsSeq (model_steps (to_init i) steps)
   | CaseTimer cr lr fa hi kp ks ki closeAt _ =>
       let t := mkTimer cr lr fa hi kp ks ki in ObsTimer (hs_deadline t) (snd (timeout_branch t closeAt))
   end.
@@ -132,6 +137,15 @@ Definition model_obs (c : case) : obs :=
 Definition check_case (c : case) : bool :=
   match c with
   | CaseSeq i ob0 steps => obs_ok (to_init i) ob0 && check_steps (to_init i) steps
+  | CaseTrace i steps ver first retry verneg hs orig rscid =>
+      let ms := model_steps (to_init i) steps in
+      let s' := last_state (to_init i) ms in
+      (* same number of steps handled (the model stops where the connection stopped), same outcome of each,
+         same decision state at the end *)
+      (Nat.eqb (List.length ms) (List.length steps)) &&
+      forallb (fun p => outcome_eqb (fst (fst p)) (match snd p with St _ _ _ out _ => out end)) (combine ms steps) &&
+      (version s' =? ver) && Bool.eqb (rcvFirst s') first && Bool.eqb (rcvRetry s') retry && Bool.eqb (verNeg s') verneg &&
+      cid_eqb (hsDCID s') (hx hs) && cid_eqb (origDCID s') (hx orig) && opt_cid_eqb (retrySCID s') (option_map hx rscid)
   | CaseBatch i ob0 steps final remaining =>
       let ms := model_steps (to_init i) steps in
       obs_ok (to_init i) ob0 && obs_ok (last_state (to_init i) ms) final &&
